@@ -68,6 +68,13 @@ def corpus():
     member["owners"] = [[1, ctx.h(1), 101, 1]]
     steps = [{"op": "dep"}, {"op": "set", "name": ctx.h(1)}, {"op": "dep"}, {"op": "set", "name": ctx.h(1)}, {"op": "set", "name": ctx.h(1)}]
     out.append((ctx, dl.scenario(ctx, dl.mk_dep(ctx, 5), [r1, r2], steps, store=[member])))
+    # the next newer revision references an ObjectSlice that cannot be read: missing (template G), or the Get fails
+    r2g = dl.mk_dset(ctx, ctx.h(7), 102, 7, 2, hash=ctx.h(7), prev=[ctx.h(1)], conds=[AV_F(1)])
+    out.append((ctx, dl.scenario(ctx, dl.mk_dep(ctx, 7), [r1, r2g], steps, store=[member])))
+    r1p = dl.mk_dset(ctx, ctx.h(1), 101, 1, 1, hash=ctx.h(1), conds=[AV_F(1), PAUSED(1)], life=1, ctrlof=[{"gk": 1, "ns": 1, "name": 1}])
+    out.append((ctx, dl.scenario(ctx, dl.mk_dep(ctx, 7), [r1p, r2g], [{"op": "dep"}, {"op": "dep"}], store=[member])))
+    for kind in ("err", "lost"):
+        out.append((ctx, dl.scenario(ctx, dl.mk_dep(ctx, 5), [r1p, r2], [{"op": "dep", "fault": [2, kind]}, {"op": "dep"}], store=[member])))
     # the same with the shared object inline in revision 2 (template B): revision 1 stays
     r2b = dl.mk_dset(ctx, ctx.h(2), 102, 2, 2, hash=ctx.h(2), prev=[ctx.h(1)], conds=[AV_F(1)])
     out.append((ctx, dl.scenario(ctx, dl.mk_dep(ctx, 2), [r1, r2b], steps[:3], store=[member])))
@@ -242,11 +249,11 @@ def kernel_set(ctx, i, tmpl, nxt, avail, pstate, copat, names, ns):
                       ctrlof=ctrlof, ctrlset=(copat == "empty"))
 
 
-def kernel_cases(maxlen, tmpl_orders, limit_mode="cycle"):
+def kernel_cases(maxlen, tmpl_orders, limit_mode="cycle", minlen=1):
     ctx = dl.Ctx(dl.ALPHABET)
     ns = 1
     out, idx = [], 0
-    for k in range(1, maxlen + 1):
+    for k in range(minlen, maxlen + 1):
         prev_space = list(itertools.product([False, True], PSTATES, COPATS))
         for order in tmpl_orders:
             tm = [order[i % len(order)] for i in range(k)]
@@ -264,7 +271,7 @@ def kernel_cases(maxlen, tmpl_orders, limit_mode="cycle"):
                     for (t, c), h in ctx.hashes.items():
                         if ctx.rank[h] == names[-1] and t == tm[-1] - 1:
                             cc_dep = c
-                    lims = LIMITS if (limit_mode == "all" or k <= 2) else [LIMITS[idx % len(LIMITS)]]
+                    lims = LIMITS if (limit_mode == "all" or (k <= 2 and limit_mode != "one")) else [LIMITS[idx % len(LIMITS)]]
                     for lim in lims:
                         dep = dl.mk_dep(ctx, tm[-1], limit=lim, cc=cc_dep)
                         out.append((ctx, dl.scenario(ctx, dep, sets, [{"op": "dep"}])))
@@ -274,9 +281,10 @@ def kernel_cases(maxlen, tmpl_orders, limit_mode="cycle"):
 
 def kernel(seed, tier):
     if tier == "quick":
-        return kernel_cases(3, [(1, 2, 3)]) + kernel_cases(2, [(1, 5), (2, 6), (5, 1)]) + \
-            [p for i, p in enumerate(kernel_cases(3, [(1, 5, 6)])) if len(p[1]["sets"]) == 3 and i % 4 == 0]
-    return kernel_cases(3, [(1, 2, 3)], "all") + kernel_cases(3, [(1, 5, 6), (2, 1, 2), (3, 2, 1), (2, 6, 5)]) + kernel4()
+        return kernel_cases(3, [(1, 2, 3)]) + kernel_cases(2, [(1, 5), (2, 6), (5, 1)]) + kernel_cases(2, [(1, 7), (7, 1)], "one", minlen=2) + \
+            [p for i, p in enumerate(kernel_cases(3, [(1, 5, 6)])) if len(p[1]["sets"]) == 3 and i % 8 == 0] + \
+            [p for i, p in enumerate(kernel_cases(3, [(1, 7, 3), (1, 2, 7)], minlen=3)) if i % 16 == 0]
+    return kernel_cases(3, [(1, 2, 3)], "all") + kernel_cases(3, [(1, 5, 6), (2, 1, 2), (3, 2, 1), (2, 6, 5), (1, 7, 3), (1, 2, 7)]) + kernel4()
 
 
 def kernel4():
